@@ -87,6 +87,8 @@ def check_fold(rep, ctx, mod, l0):
                                 return "i%d" % p_.id
                         if M.match(RAWLEN, o, {}) is not None:
                             return "rawlen"
+                        if M.match(raw_at(0), so, {}) is not None:
+                            return "hlen"
                         return None
                     pf = ptr_form(l0, ld.ops[0], lambda o: "raw" if M.match(RAW, o, {}) is not None else None, symf)
                     idx = [k for k in (pf[1].t if pf else {}) if k.startswith("i")]
@@ -104,7 +106,9 @@ def check_fold(rep, ctx, mod, l0):
                                 if fct[0] != pred:
                                     return False
                                 lx, ly = linform(l0, fct[1], symf), linform(l0, fct[2], symf)
-                                return lx is not None and ly is not None and lx.add(ly, -1) == Lin(2, {idx[0]: 1, "rawlen": -1})
+                                # i against raw_data_len - 2, or against the header's own length byte: the same number once the extension by
+                                # header_len + 2 - raw_data_len has succeeded (R1c demands exactly that at the read; R4g that it grows by that amount)
+                                return lx is not None and ly is not None and lx.add(ly, -1) in (Lin(2, {idx[0]: 1, "rawlen": -1}), Lin(0, {idx[0]: 1, "hlen": -1}))
                             exits_ok = len(lp["exits"]) >= 1 and all(any(bound_ok(fct, "uge") for fct in F.edge_facts(b_, s_)) for (b_, s_) in lp["exits"])
                             read_ok = any(bound_ok(fct, "ult") for fct in F.at_inst(ld))
                             if not exits_ok or not read_ok:
